@@ -14,6 +14,7 @@ language and satisfy the side conditions under which `evalBody` is the Go semant
 import VaxisModel.Lemmas.EmuBody
 import VaxisModel.Lemmas.EmuBodyRow
 import VaxisModel.Lemmas.EmuBodyPrint
+import VaxisModel.Lemmas.EmuBodyTabs
 
 namespace VaxisModel.Props.C05Bodies
 open VaxisModel.Model.Emu VaxisModel.Model.EmuBody VaxisModel.Lemmas.Emu VaxisModel.Lemmas.EmuBody VaxisModel.Gen
@@ -137,6 +138,14 @@ theorem body_ich (e : Emu) (n : Int) : evalBody TermBodies.body_ich [] [n] e = i
 theorem body_rep (e : Emu) (n : Int) : evalBody TermBodies.body_rep [] [n] e = rep Fixes.current e n := by
   simp only [TermBodies.body_rep, TermBodies.stmt_rep, rep]
   body_norm
+
+/-! ### tab stops: CHT (and HT), CBT, TBC, HTS -/
+
+theorem body_cht (e : Emu) (n : Int) : evalBody TermBodies.body_cht [] [n] e = .ok (cht Fixes.current e n) :=
+  body_cht_eq e n
+theorem body_cbt (e : Emu) (n : Int) : evalBody TermBodies.body_cbt [] [n] e = .ok (cbt e n) := body_cbt_eq e n
+theorem body_tbc (e : Emu) (n : Int) : evalBody TermBodies.body_tbc [] [n] e = .ok (tbc e n) := body_tbc_eq e n
+theorem body_hts (e : Emu) : evalBody TermBodies.body_hts [] [] e = .ok (hts e) := body_hts_eq e
 
 /-- print(seq): charset translation, autowrap (wrapped flag + NEL), insert-mode shift, clamped write,
     trailing cells of a wide glyph, cursor advance and pending wrap — for every grapheme, every width,
